@@ -354,7 +354,7 @@ def run_domain(task):
     if d["pts"] is None:
         P = np.asarray(e["pts"](3 if 3 in e["Ns"] else e["Ns"][0], kw, s), dtype=float)
     else:
-        P = np.asarray(d["pts"], dtype=float)
+        P = np.asarray(d["pts"], dtype=np.int64 if d.get("int_pts") else float)      # int_pts: the same request with integer-typed positions
     where = {"t": t} if d["t"] is not None else {"points": "outside"}
     cx.res["transitions"] += 1
     cx.res["evals"] += 1
